@@ -13,10 +13,15 @@ def lit(s):
     return '"' + "".join("\\x%02x" % ord(c) if (ord(c) < 32 or ord(c) > 126 or c in '"\\') else c for c in s) + '"'
 
 
-def program(conv, f, args, sentinels, calls=1):
-    """HERA text calling f(args) `calls` times.  Strings are data; results are left in R1 (last call) and the
+def program(conv, f, args, sentinels, calls=1, alias=False):
+    """HERA text calling f(args) `calls` times (alias: equal string arguments are one and the same string in memory).  Strings are data; results are left in R1 (last call) and the
     earlier results in memory cells res0.."""
     data, setup = [], []
+
+    def argname(i, a):
+        if alias and i > 0 and isinstance(args[0], str) and a == args[0]:
+            return "arg0"
+        return "arg%d" % i
     for i, a in enumerate(args):
         if isinstance(a, str):
             # a cell that is not zero right behind every string: a function that reads one cell too far sees it
@@ -34,7 +39,7 @@ def program(conv, f, args, sentinels, calls=1):
             lines.append("INC(SP, %d)" % (len(args) + 3))
             for i, a in enumerate(args):
                 # R11 (Rt) is the scratch register here, so that the sentinels survive the set-up
-                lines += ["SET(R11, %s)" % ("arg%d" % i if isinstance(a, str) else a), "STORE(R11, %d, R12)" % (i + 3)]
+                lines += ["SET(R11, %s)" % (argname(i, a) if isinstance(a, str) else a), "STORE(R11, %d, R12)" % (i + 3)]
             lines.append("CALL(R12, %s)" % f)
             # save every register right after the return, before anything else touches them
             lines.append("SET(R11, regsave)")
@@ -45,7 +50,7 @@ def program(conv, f, args, sentinels, calls=1):
             lines.append("STORE(R15, 15, R11)")
         else:
             for i, a in enumerate(args):
-                lines.append("SET(R%d, %s)" % (i + 1, "arg%d" % i if isinstance(a, str) else a))
+                lines.append("SET(R%d, %s)" % (i + 1, argname(i, a) if isinstance(a, str) else a))
             lines.append("CALL(R12, %s)" % f)
             lines.append("SET(R11, regsave)")
             lines.append("STORE(R14, 14, R11)")
